@@ -822,6 +822,14 @@ reprocess:
 				format++;
 				goto reprocess;
 			}
+			/* a width or precision far beyond any line buffer adds
+			 * nothing but padding that is cut off again; a damaged
+			 * record must not make snprintf() pad for minutes */
+			if (arg_int > 2 * QB_LOG_ABSOLUTE_MAX_LEN) {
+				arg_int = 2 * QB_LOG_ABSOLUTE_MAX_LEN;
+			} else if (arg_int < -2 * QB_LOG_ABSOLUTE_MAX_LEN) {
+				arg_int = -2 * QB_LOG_ABSOLUTE_MAX_LEN;
+			}
 			snprintf(num, sizeof(num), "%d", arg_int);
 			for (n = num; *n; n++) {
 				MINI_FORMAT_ADD(*n);
